@@ -246,5 +246,11 @@ func init() {
 			val = mkf(w.depth)
 			c05One(o, root, holder, s, w, val, "lists")
 		}
+		// whole walks: objects, interfaces and unions whose members type a same-named field differently; every
+		// leaf must come out with the shape of the field of the *object it belongs to*
+		for k := 0; k < n/4; k++ {
+			r := rng.Fork()
+			walkCase(o, r, "C05", docOpts{collisions: false, abstract: r.Chance(40), maxDepth: 3}, nil)
+		}
 	}
 }
